@@ -5,4 +5,5 @@ From Coq Require Import ExtrOcamlBasic.
 From Spdx Require Import Model.Api Model.GenFiles Model.Ticks Model.Expand Spec.Lex Spec.MatchSpec Gen.Tables Gen.Template.
 Extraction Language OCaml.
 Extraction "model.ml" T0 parse scan satisfies validate_licenses extract_licenses canon
-  gen_licenses_file gen_deprecated_file gen_exceptions_file tpl_licenses tpl_deprecated tpl_exceptions ref_tokens satisfied_by_t leaves_t expand.
+  gen_licenses_file gen_deprecated_file gen_exceptions_file tpl_licenses tpl_deprecated tpl_exceptions ref_tokens satisfied_by_t leaves_t expand
+  license_range strings_to_nodes sort_and_dedup.
